@@ -7,6 +7,7 @@ package c19
 import (
 	"bytes"
 	"crypto/sha256"
+	"encoding/base64"
 	"encoding/hex"
 	"fmt"
 	"math/rand"
@@ -30,6 +31,9 @@ type Event struct {
 	Alive     bool   `json:"alive"`
 	Detail    string `json:"detail"`
 	Via       string `json:"via"`
+	// Input carries the exact bytes (base64) of seeded byte-level mutations, so that they can be
+	// re-executed although they are not derivable from the id alone (fresh certificates per run).
+	Input string `json:"input,omitempty"`
 }
 
 type Options struct {
@@ -38,6 +42,7 @@ type Options struct {
 	Fixtures string
 	WorkDir  string
 	Only     map[string]bool // replay: execute only the inputs with these ids
+	Override map[string][]byte // replay: exact bytes for mutation inputs (id -> content)
 	Parts    map[string]bool // which parts to run (empty = all)
 }
 
@@ -79,6 +84,46 @@ func (d *Driver) want(id string) bool {
 
 func (d *Driver) part(name string) bool {
 	return len(d.opt.Parts) == 0 || d.opt.Parts[name]
+}
+
+// withOverrides replaces / adds the inputs whose exact bytes were handed in for re-execution.
+func (d *Driver) withOverrides(prefix string, inputs []input) []input {
+	if len(d.opt.Override) == 0 {
+		return inputs
+	}
+
+	seen := map[string]bool{}
+
+	for i := range inputs {
+		if b, ok := d.opt.Override[inputs[i].id]; ok {
+			inputs[i].data = b
+		}
+
+		seen[inputs[i].id] = true
+	}
+
+	ids := make([]string, 0, len(d.opt.Override))
+	for id := range d.opt.Override {
+		ids = append(ids, id)
+	}
+
+	sort.Strings(ids)
+
+	for _, id := range ids {
+		if strings.HasPrefix(id, prefix+"/") && !seen[id] {
+			inputs = append(inputs, input{id: id, class: "mutation", data: d.opt.Override[id]})
+		}
+	}
+
+	return inputs
+}
+
+func b64(in input) string {
+	if in.class != "mutation" {
+		return ""
+	}
+
+	return base64.StdEncoding.EncodeToString(in.data)
 }
 
 func (d *Driver) emit(e Event) {
